@@ -715,6 +715,22 @@ pub fn exec(lineno: usize, l: &str) -> String {
                 _ => panic!("bad size"),
             }
         },
+        // projection for C06 on hands that need not be valid: the VALIDATED rank record, and whether the plain record is
+        // the conversion of the plain value (what value an invalid hand gets from the plain path is left open)
+        "hrankv" => {
+            let v = nums();
+            let n = v[0] as usize;
+            fn hv<H: HandRanker + HandValidator>(h: &H, o: &mut String) {
+                push_opt(o, guard(|| hr_str(&h.hand_rank_validated())));
+                push_opt(o, guard(|| b(h.hand_rank() == HandRank::from(h.hand_rank_value()))));
+            }
+            match n {
+                5 => hv(&Five::from(a5(&v[1..])), &mut o),
+                6 => hv(&Six::from(a6(&v[1..])), &mut o),
+                7 => hv(&Seven::from(a7(&v[1..])), &mut o),
+                _ => panic!("bad size"),
+            }
+        },
         // projection for C06: is the rank record reported for a hand the conversion of the hand's value (plain and
         // validated), and not Invalid?
         "hrself" => {
@@ -894,8 +910,13 @@ pub fn exec(lineno: usize, l: &str) -> String {
                     all(&h, &mut o);
                     okp(&mut o, guard(|| evaluate::five_cards(a5(&v[1..]))));
                     if v[1..].contains(&0) {
+                        // a five holding a blank: what EVERY entry point gave it (value 0 / the Invalid rank)
                         push_opt(&mut o, guard(|| h.hand_rank_value()));
                         push_opt(&mut o, guard(|| hr_str(&h.hand_rank())));
+                        push_opt(&mut o, guard(|| h.hand_rank_value_and_hand().0));
+                        push_opt(&mut o, guard(|| h.hand_rank_value_validated()));
+                        push_opt(&mut o, guard(|| hr_str(&h.hand_rank_validated())));
+                        push_opt(&mut o, guard(|| evaluate::five_cards(a5(&v[1..]))));
                     }
                 },
                 6 => all(&Six::from(a6(&v[1..])), &mut o),
